@@ -72,6 +72,17 @@ def run(tier):
     check_state_for_iface(rep, prog, 'R17.2')
     fs = FrameSetup(prog, mtu_ok=True)
     res, obs, stats = run_regions(fs)
+    # what goes out on one interface must not carry bytes left in recycled heap memory by the handling of another interface's
+    # frames: every byte below the transmitted length is determined by a store or the zero fill
+    rep.rule('R17.5', 'no transmitted byte is left to recycled heap memory (an undetermined byte is a channel between interfaces): every byte below the frame length is determined', floor=8)
+    from .frame_common import Snap, effects as _effects
+    for region_, outs_ in sorted(res.items()):
+        for st_, _ret in outs_:
+            for e_, _c in _effects(st_, 'send'):
+                sn_ = Snap(st_, e_[1])
+                ok_, why_ = sn_.initialised_upto(sn_.length)
+                rep.check(ok_, 'R17.5', '%s|%s|init' % (region_, sn_.d['fn']), '%s transmits undetermined bytes (%s): what they hold is whatever the heap block held before - possibly '
+                          'left there while serving another interface' % (sn_.d['fn'], why_), function=sn_.d['fn'], file='lltdResponder/lltdBlock.c')
     ctx = ('ptr', 'ext:ctx', ('c', 0))
     neff = 0
     for region, outs in res.items():
